@@ -2179,6 +2179,7 @@ func (m *Machine) processSubscriptions(t *Transition) {
 		m.subs.ProcessWhenTime(t.ClockBefore()),
 		m.subs.ProcessWhenQueue(m.queueTick),
 		m.subs.ProcessWhenQuery(),
+		m.subs.ProcessWhenArgsCtx(),
 	)
 
 	// unlock
